@@ -3,6 +3,7 @@ package main
 import (
 	"bytes"
 	"compress/zlib"
+	"encoding/ascii85"
 	"encoding/hex"
 	"fmt"
 	"image"
@@ -207,6 +208,7 @@ func pipeXRefCorpus() []corpusEntry {
 // a document with one stream for every kind of internal decode site
 
 type sinkObj struct {
+	raw  string // != "": the object's text as it is
 	dict string // without /Length and /Filter
 	body []byte // nil: not a stream
 	site string // what decodes it
@@ -225,7 +227,17 @@ func sinkObjects() map[int]sinkObj {
 		2: {dict: "/Type /Pages /Kids [3 0 R] /Count 1"},
 		3: {dict: "/Type /Page /Parent 2 0 R /MediaBox [0 0 200 200] /Contents [4 0 R 21 0 R] /Resources << /Font << /F1 5 0 R /F3 22 0 R >> " +
 			"/ColorSpace << /CS0 [/ICCBased 10 0 R] /Pat [/Pattern /DeviceRGB] >> /Shading << /Sh0 11 0 R /Sh1 15 0 R >> " +
-			"/XObject << /Im0 14 0 R /Fm0 18 0 R >> /Pattern << /Pt0 17 0 R >> /ExtGState << /P0 << /Type /ExtGState /SMask << /Type /Mask /S /Luminosity /G 18 0 R >> >> >> >>"},
+			"/XObject << /Im0 14 0 R /Fm0 18 0 R >> /Pattern << /Pt0 17 0 R >> /ExtGState << /P0 << /Type /ExtGState /SMask << /Type /Mask /S /Luminosity /G 18 0 R >> >> " +
+			// the same indirect object, whose decoded value is nil / a default, used twice
+			"/P1 << /Type /ExtGState /SMask 30 0 R /TR 32 0 R /BG2 32 0 R /UCR2 32 0 R /HT 32 0 R >> " +
+			"/P2 << /Type /ExtGState /SMask 30 0 R /TR 32 0 R /BG2 32 0 R /UCR2 32 0 R /HT 32 0 R >> " +
+			"/P3 << /Type /ExtGState /SMask 31 0 R /TR2 32 0 R /Font [33 0 R 10] >> /P4 << /Type /ExtGState /SMask 31 0 R /TR2 32 0 R /Font [33 0 R 10] >> " +
+			"/P5 << /Type /ExtGState /SMask 99 0 R /TR 99 0 R >> /P6 << /Type /ExtGState /SMask 99 0 R /TR 99 0 R >> /P7 34 0 R /P8 34 0 R >> >>"},
+		30: {dict: "", raw: "/None"},
+		31: {dict: "", raw: "null"},
+		32: {dict: "", raw: "/Default"},
+		33: {dict: "", raw: "null"},
+		34: {dict: "", raw: "null"},
 		4:  {dict: "", body: []byte(content), site: "content"},
 		21: {dict: "", body: []byte("q /Fm0 Do Q\n"), site: "content2"},
 		5: {dict: "/Type /Font /Subtype /Type1 /BaseFont /Test /FirstChar 65 /LastChar 65 /Widths [500] /FontDescriptor 6 0 R /ToUnicode 8 0 R"},
@@ -253,6 +265,10 @@ func sinkObjects() map[int]sinkObj {
 func sinkFile(piped map[int]int) []byte {
 	objs := map[int]string{}
 	for num, o := range sinkObjects() {
+		if o.raw != "" {
+			objs[num] = o.raw
+			continue
+		}
 		if o.body == nil {
 			objs[num] = "<< " + o.dict + " >>"
 			continue
@@ -282,6 +298,111 @@ func sinkCorpus() []corpusEntry {
 		}
 	}
 	return res
+}
+
+// ---------------------------------------------------------------------------
+// inline images: BI dictionaries whose /F chain puts a pipe-backed stage in
+// front of a stage that fails (content.DecodeInlineImage builds the chain
+// stage by stage)
+
+type inlineChain struct {
+	name, f, dp string
+	a85         bool
+}
+
+var inlineChains = []inlineChain{
+	{"ahx-dct", "[/AHx /DCT]", "", false},
+	{"ahx-dct-unknown", "[/AHx /DCT /Foo]", "", false},
+	{"ahx-dct-dct-unknown", "[/AHx /DCT /DCT /Bar]", "", false},
+	{"ahx-dct-ccf-badparams", "[/AHx /DCT /CCF]", "[null null << /K 1 /Columns -7 /Rows -1 >>]", false},
+	{"ahx-dct-ccf-hugeparams", "[/AHx /DCT /CCF]", "[null null << /K -1 /Columns 99999999999 >>]", false},
+	{"ahx-dct-lzw-badparams", "[/AHx /DCT /LZW]", "[null null << /Predictor 99 /Columns 0 >>]", false},
+	{"ahx-dct-fl", "[/AHx /DCT /Fl]", "", false},
+	{"ahx-dct-fl-badpredictor", "[/AHx /DCT /Fl]", "[null null << /Predictor 12 /Columns 100000000 /Colors 77 >>]", false},
+	{"a85-dct-unknown", "[/A85 /DCT /Foo]", "", true},
+	{"a85-dct-crypt", "[/A85 /DCT /Crypt]", "", true},
+	{"ahx-dct-dp-not-array", "[/AHx /DCT /Foo]", "<< /K 1 >>", false},
+	{"full-names", "[/ASCIIHexDecode /DCTDecode /NoSuchDecode]", "", false},
+}
+
+func inlineImageContent(ch inlineChain, j []byte) string {
+	var sb strings.Builder
+	sb.WriteString("q\nBI /W 64 /H 64 /BPC 8 /CS /G /F " + ch.f)
+	if ch.dp != "" {
+		sb.WriteString(" /DP " + ch.dp)
+	}
+	sb.WriteString(" ID\n")
+	if ch.a85 {
+		var b bytes.Buffer
+		w := ascii85.NewEncoder(&b)
+		w.Write(j)
+		w.Close()
+		sb.Write(b.Bytes())
+		sb.WriteString("~>")
+	} else {
+		sb.WriteString(hex.EncodeToString(j) + ">")
+	}
+	sb.WriteString("\nEI\nQ\n")
+	return sb.String()
+}
+
+// inlineJPEG stays below the scanner's 4096-byte limit for inline image data
+// (hex doubles the size); the pixels are smooth so that it compresses well.
+func inlineJPEG() []byte {
+	img := image.NewGray(image.Rect(0, 0, 64, 64))
+	for i := range img.Pix {
+		img.Pix[i] = byte(i / 64 * 3)
+	}
+	var b bytes.Buffer
+	jpeg.Encode(&b, img, &jpeg.Options{Quality: 30})
+	return b.Bytes()
+}
+
+func inlineCorpus() []corpusEntry {
+	var res []corpusEntry
+	j := inlineJPEG()
+	for _, ch := range inlineChains {
+		objs := map[int]string{}
+		for num, o := range sinkObjects() {
+			switch {
+			case o.raw != "":
+				objs[num] = o.raw
+			case num == 21:
+				body := strings.Repeat(inlineImageContent(ch, j), 3)
+				objs[num] = fmt.Sprintf("<< /Length %d >>\nstream\n%s\nendstream", len(body), body)
+			case o.body == nil:
+				objs[num] = "<< " + o.dict + " >>"
+			default:
+				objs[num] = fmt.Sprintf("<< %s /Length %d >>\nstream\n%s\nendstream", o.dict, len(o.body), string(o.body))
+			}
+		}
+		res = append(res, corpusEntry{"pipe-inline-" + ch.name, simpleFile(objs, 1, "")})
+	}
+	return res
+}
+
+// mInlineImage replaces the body of a stream that looks like a content stream
+// by inline images with such chains.
+func mInlineImage(R *rand.Rand, d, _ []byte) ([]byte, string) {
+	var cand []streamLoc
+	for _, s := range findStreams(d) {
+		dict := d[s.objStart:s.dictEnd]
+		if !bytes.Contains(dict, []byte("/Type")) && !bytes.Contains(dict, []byte("/Length1")) &&
+			!bytes.Contains(dict, []byte("/Subtype")) && !bytes.Contains(dict, []byte("/FunctionType")) {
+			cand = append(cand, s)
+		}
+	}
+	if len(cand) == 0 {
+		return mKeyValue(R, d, nil)
+	}
+	s := cand[R.IntN(len(cand))]
+	ch := inlineChains[R.IntN(len(inlineChains))]
+	j := inlineJPEG()
+	if R.IntN(4) == 0 {
+		j = j[:len(j)/2]
+	}
+	body := "q 1 0 0 1 0 0 cm\n" + inlineImageContent(ch, j) + "BT ET\n"
+	return rewriteStream(d, s, "", []byte(body)), "inline:" + ch.name
 }
 
 // ---------------------------------------------------------------------------
